@@ -60,6 +60,8 @@ def virtual_time(clock):
             m.time = s
 
 
+from vlib.runner import Violation  # noqa: E402
+
 class Env:
     def __init__(self, nservers=1, pieces=None, eintr=None, addrs=None, now=1_700_000_000, cas_start=0, spec=None):
         self.clock = Clock(now)
@@ -126,6 +128,8 @@ class Env:
         self.net.begin_call(i)
         try:
             r = ("ok", fn(*a, **k))
+        except Violation:
+            raise                      # (found by the harness inside the call, e.g. vlib.ops.invoke: not an outcome of the call)
         except Exception as e:  # noqa: BLE001
             r = ("exc", e)
         except BaseException as e:  # noqa: BLE001  (injected interruptions)
